@@ -109,6 +109,9 @@ func rootsFor(prop, tier string) []Root {
 			if thorough || cfg == 0 || cfg == 7 || cfg == 13 || cfg == 4 {
 				rs = append(rs, Root{Prop: prop, Harness: "VH_C01_History", Params: []int{cfg, 0}, MaxDecs: 4000, MaxSteps: 40000000})
 			}
+			if thorough || cfg == 5 || cfg == 14 {
+				rs = append(rs, Root{Prop: prop, Harness: "VH_C01_History", Params: []int{cfg, 3}, MaxDecs: 6000, MaxSteps: 60000000, LibPrio: true})
+			}
 			if thorough || cfg == 1 || cfg == 7 || cfg == 12 {
 				rs = append(rs, Root{Prop: prop, Harness: "VH_C01_History", Params: []int{cfg, 2}, MaxDecs: 4000, MaxSteps: 40000000})
 			}
@@ -130,7 +133,7 @@ func rootsFor(prop, tier string) []Root {
 			add("VH_C02_Category", kw, 4)
 		}
 	case "C04":
-		for f := 0; f < 9; f++ {
+		for f := 0; f < 10; f++ {
 			rs = append(rs, Root{Prop: prop, Harness: "VH_C04_Exit", Params: []int{1, f}, MaxDecs: 2000})
 			if thorough || f == 0 || f == 2 {
 				rs = append(rs, Root{Prop: prop, Harness: "VH_C04_Exit", Params: []int{2, f}, MaxDecs: 2000})
@@ -145,6 +148,7 @@ func rootsFor(prop, tier string) []Root {
 			rs = append(rs, Root{Prop: prop, Harness: "VH_C07_Attempts", Params: []int{2}, MaxDecs: 8000, MaxSteps: 60000000})
 		}
 	case "C03":
+		add("VH_C03_RealOffsets")
 		rs = append(rs, Root{Prop: prop, Harness: "VH_C03_Resume", Params: []int{1}, MaxDecs: 2000})
 		rs = append(rs, Root{Prop: prop, Harness: "VH_C03_Resume", Params: []int{2}, MaxDecs: 2000})
 		if thorough {
@@ -156,6 +160,8 @@ func rootsFor(prop, tier string) []Root {
 			rs = append(rs, Root{Prop: prop, Harness: "VH_C03_Labels", Params: []int{3}, MaxDecs: 2000})
 		}
 	case "C05", "C06":
+		// a master error whose message is long enough to look like any fixed text
+		rs = append(rs, Root{Prop: prop, Harness: "VH_C05_Stream", Params: []int{2, 0, 0, 2}, MaxDecs: 4000, MaxSteps: 30000000})
 		npk := []int{0, 1, 2}
 		for cause := 0; cause < 10; cause++ {
 			for _, n := range npk {
